@@ -20,6 +20,7 @@ fn main() {
         Some("doc-locality") => std::process::exit(doc_locality_case(&args[2], args[3].parse().unwrap())),
         Some("ignore") => std::process::exit(ignore_case(&args[2], &args[3])),
         Some("title") => std::process::exit(title_case(&args[2])),
+        Some("mask") => std::process::exit(mask_case(&args[2], &args[3], &args[4])),
         Some("spell") => std::process::exit(spell_case(&args[2..])),
         Some("dict") => std::process::exit(dict_case(&args[2..])),
         Some("spell-cache") => std::process::exit(spell_cache_case(&args[2], &args[3])),
@@ -1038,5 +1039,61 @@ fn title_case(text: &str) -> i32 {
         }
     }
     if bad == 0 { println!("ok: title case of {text:?}"); }
+    bad
+}
+
+
+/// C04: `parsers::Mask` with a masker that allows the given spans (built with the real `Mask::push_allowed`, optionally merged with
+/// the real `merge_whitespace_sep`) and an inner parser that returns one word per slice. args: <text> <s,e;s,e;..> <merge 0|1>
+fn mask_case(text: &str, spans: &str, merge: &str) -> i32 {
+    use harper_core::parsers::Parser;
+    use harper_core::{Mask, Masker, Token, TokenKind};
+    struct Spans(Vec<(usize, usize)>, bool);
+    impl Masker for Spans {
+        fn create_mask(&self, source: &[char]) -> Mask {
+            let mut m = Mask::new_blank();
+            for (s, e) in &self.0 { m.push_allowed(Span::new(*s, *e)); }
+            if self.1 { m.merge_whitespace_sep(source); }
+            m
+        }
+    }
+    struct OneWord;
+    impl Parser for OneWord {
+        fn parse(&self, source: &[char]) -> Vec<Token> {
+            if source.is_empty() { vec![] } else { vec![Token::new(Span::new(0, source.len()), TokenKind::Word(None))] }
+        }
+    }
+    let chars: Vec<char> = text.chars().collect();
+    let allowed: Vec<(usize, usize)> = spans.split(';').filter(|p| !p.is_empty()).map(|p| { let (a, b) = p.split_once(',').unwrap(); (a.parse().unwrap(), b.parse().unwrap()) }).collect();
+    let merge = merge == "1";
+    let toks = harper_core::parsers::Mask::new(Spans(allowed.clone(), merge), OneWord).parse(&chars);
+    let is_allowed = |p: usize| allowed.iter().any(|(s, e)| *s <= p && p < *e);
+    let mut bad = 0;
+    let mut prev = 0;
+    for t in &toks {
+        if t.span.start > t.span.end || t.span.end > chars.len() || t.span.start < prev { println!("VIOLATED: token {:?} {:?} out of bounds / order in {text:?}", t.kind, t.span); bad = 1; }
+        prev = t.span.end;
+        match t.kind {
+            TokenKind::Word(_) => {
+                for p in t.span.start..t.span.end.min(chars.len()) {
+                    if !is_allowed(p) && !(merge && (chars[p].is_whitespace())) { println!("VIOLATED: character {p} of {text:?} is offered to the prose parser although the masker did not allow it (allowed {allowed:?})"); bad = 1; }
+                }
+            }
+            TokenKind::ParagraphBreak => {
+                if !chars[t.span.start.min(chars.len())..t.span.end.min(chars.len())].contains(&'\n') { println!("VIOLATED: paragraph break {:?} covers no line feed in {text:?}", t.span); bad = 1; }
+            }
+            _ => { println!("VIOLATED: unexpected token {:?}", t.kind); bad = 1; }
+        }
+    }
+    for p in 0..chars.len() {
+        if is_allowed(p) && !toks.iter().any(|t| matches!(t.kind, TokenKind::Word(_)) && t.span.start <= p && p < t.span.end) { println!("VIOLATED: allowed character {p} of {text:?} is in no word token (allowed {allowed:?})"); bad = 1; }
+    }
+    if merge {
+        let words: Vec<_> = toks.iter().filter(|t| matches!(t.kind, TokenKind::Word(_))).collect();
+        for w in words.windows(2) {
+            if chars[w[0].span.end..w[1].span.start].iter().all(|c| c.is_whitespace()) { println!("VIOLATED: chunks {:?} and {:?} of {text:?} are separated by whitespace only but were not merged", w[0].span, w[1].span); bad = 1; }
+        }
+    }
+    if bad == 0 { println!("ok: mask {allowed:?} (merge {merge}) on {text:?}: {} tokens", toks.len()); }
     bad
 }
